@@ -18,6 +18,7 @@ type Style struct {
 	PermKeys bool   `json:"perm_keys,omitempty"` // permute the keys of every mapping
 	Flow     bool   `json:"flow,omitempty"`      // allow flow style for some collections
 	Quotes   bool   `json:"quotes,omitempty"`    // vary scalar quoting
+	Blocks   bool   `json:"blocks,omitempty"`    // literal block scalars (|, |-, |+) for some strings with line breaks
 }
 
 type prng struct{ s uint64 }
@@ -49,6 +50,12 @@ func (e *emitter) scalar(tag, value string) *yaml.Node {
 func (e *emitter) str(s string) *yaml.Node {
 	n := &yaml.Node{Kind: yaml.ScalarNode, Tag: "!!str", Value: s}
 	if strings.ContainsAny(s, "\n\r") {
+		if e.st.Blocks && blockSafe(s) && e.r.intn(2) == 0 {
+			// the encoder chooses the chomping indicator: trailing line breaks belong to the value (|+), which makes
+			// the value depend on how the document ends when the scalar is its last node
+			n.Style = yaml.LiteralStyle
+			return n
+		}
 		// yaml.v3 would pick the literal block style, which loses leading line breaks
 		n.Style = yaml.DoubleQuotedStyle
 		return n
@@ -66,6 +73,19 @@ func (e *emitter) str(s string) *yaml.Node {
 		}
 	}
 	return n
+}
+
+// blockSafe: strings a literal block scalar can carry (the serialiser's round-trip self-check still guards the result).
+func blockSafe(s string) bool {
+	if s == "" || s[0] == '\n' || s[0] == ' ' || s[0] == '\t' || strings.ContainsAny(s, "\r") {
+		return false
+	}
+	for _, line := range strings.Split(s, "\n") {
+		if !isPrintable(strings.ReplaceAll(line, "\t", "")) {
+			return false
+		}
+	}
+	return true
 }
 
 func isPrintable(s string) bool {
